@@ -201,7 +201,12 @@ def bounded(rep, tier):
                 A = build(); B = build()
                 A2 = deco(A)
                 if A2 is not A: fails.append((combo, nested_mode, 'decorating the class returned another object'))
+                snap = dict(vars(A.C if nested_mode else A))
                 if deco(A) is not A: fails.append((combo, nested_mode, 'second decoration did not return the same class'))
+                # "decorating an already decorated class returns it unchanged": no member is replaced or added by the second decoration
+                snap2 = dict(vars(A.C if nested_mode else A))
+                changed = sorted(k for k in set(snap) | set(snap2) if snap.get(k) is not snap2.get(k))
+                if changed: fails.append((combo, nested_mode, f'idempotence: second decoration replaced members {changed}'))
                 # member-wise decoration of B (descriptors via beartype itself, innermost class first for nesting)
                 CB = B.C if nested_mode else B; CA = A.C if nested_mode else A
                 for nm, val in list(vars(CB).items()):
